@@ -183,6 +183,14 @@ func setErr(o *Obs, err error) *Obs {
 }
 
 // Read performs one read API call on the client.
+// scribble: the caller edits the answer it was given (sarama hands out copies of the replica lists so that this is
+// harmless): a later call must still say what the response said.
+func scribble(l []int32) {
+	for i := range l {
+		l[i] = -77
+	}
+}
+
 func Read(c sarama.Client, op, topic string, part int32) *Obs {
 	o := &Obs{Op: op, Topic: topic, Part: part}
 	switch op {
@@ -224,15 +232,18 @@ func Read(c sarama.Client, op, topic string, part int32) *Obs {
 		return setErr(o, err)
 	case "Replicas":
 		l, err := c.Replicas(topic, part)
-		o.Ints, o.Nil = l, l == nil
+		o.Ints, o.Nil = append([]int32(nil), l...), l == nil
+		scribble(l)
 		return setErr(o, err)
 	case "InSyncReplicas":
 		l, err := c.InSyncReplicas(topic, part)
-		o.Ints, o.Nil = l, l == nil
+		o.Ints, o.Nil = append([]int32(nil), l...), l == nil
+		scribble(l)
 		return setErr(o, err)
 	case "OfflineReplicas":
 		l, err := c.OfflineReplicas(topic, part)
-		o.Ints, o.Nil = l, l == nil
+		o.Ints, o.Nil = append([]int32(nil), l...), l == nil
+		scribble(l)
 		return setErr(o, err)
 	}
 	panic("clirig: unknown read op " + op)
